@@ -77,14 +77,17 @@ func (s *SubjectSet) String() string {
 }
 
 func (s *SubjectSet) FromString(str string) (*SubjectSet, error) {
-	// If there is no '#' we have a subject set without a relation, such as
-	// Users:Bob, which just means that the relation is empty.
-	namespaceAndObject, relation, _ := strings.Cut(str, "#")
-
-	namespace, object, ok := strings.Cut(namespaceAndObject, ":")
+	// The fields are split from left to right, like for the relation tuple:
+	// the namespace ends at the first ':', the object at the first '#' after
+	// that.
+	namespace, objectAndRelation, ok := strings.Cut(str, ":")
 	if !ok {
 		return nil, errors.WithStack(ErrMalformedInput.WithDebug("expected subject set to contain ':'"))
 	}
+
+	// If there is no '#' we have a subject set without a relation, such as
+	// Users:Bob, which just means that the relation is empty.
+	object, relation, _ := strings.Cut(objectAndRelation, "#")
 
 	return &SubjectSet{
 		Namespace: namespace,
